@@ -308,6 +308,61 @@ def places_of_rvalue(rv):
     return out
 
 
+def loop_header(b, bi):
+    """innermost loop header around block bi: a block that dominates bi and that bi can reach"""
+    from expr import reach_strict
+    after = reach_strict(b, bi)
+    dom = b.dominators()
+    live = b.live_blocks()
+    cands = [h for h in dom.get(bi, ()) if h in after and
+             any(h in b.succs(x) and h in dom.get(x, ()) for x in live)]  # target of a back edge
+    if not cands:
+        return None
+    return max(cands, key=lambda h: len(dom.get(h, ())))
+
+
+def _is_counter(t, depth=0):
+    """phi of constants and (counter + constant): a local stepped by the loop"""
+    if t[0] == "opaque":
+        return depth > 0
+    if t[0] != "phi":
+        return False
+    ok = False
+    for m in t[1]:
+        if m[0] == "const":
+            continue
+        if m[0] == "bin" and m[1] == "Add" and m[3][0] == "const" and (_is_counter(m[2], depth + 1) or
+                                                                        m[2][0] == "opaque"):
+            ok = True
+            continue
+        if m[0] == "bin" and m[1] == "Add" and m[2][0] == "opaque" and m[3][0] == "opaque":
+            ok = True
+            continue
+        return False
+    return ok
+
+
+def loop_var_kind(b, hbi, val):
+    """'loopvar': val is the variable the loop at hbi steps (next() of a range evaluated inside the
+    loop, or a counter local); 'derived': val is computed from such a variable but is not it;
+    'unknown' otherwise"""
+    from expr import reach_strict
+    inside = reach_strict(b, hbi) | {hbi}
+
+    def is_var(t):
+        if t[0] == "call" and t[1] == ("Iterator", "next") and len(t) == 5 and t[4] in inside and \
+                b.dominates(hbi, t[4]) and hbi in reach_strict(b, t[4]) | {t[4]} and \
+                any(nd[0] == "call" and nd[1][0] in ("RangeInclusive", "Range") for nd in walk(t[2])) and \
+                tuple(t[3]) in ((), ("v:Some", "f:0")):
+            return True
+        return _is_counter(t)
+    if is_var(val):
+        return "loopvar"
+    if val[0] == "const" or any(is_var(nd) for nd in walk(val) if isinstance(nd, tuple) and nd is not val):
+        return "derived"
+    return "unknown"
+
+
 def r_tags(F, R):
     """new_from: a tag is assigned (encode.insert + decode.push(Some)) only on the bit-clear edge,
     both tables are written together with the same bytes and the loop's tag, and every iteration
@@ -327,18 +382,21 @@ def r_tags(F, R):
     if ok:
         (ibi, it) = inserts[0]
         (sbi, stt) = somes[0]
-        # the range loop
-        rng = [(bi, t) for (bi, t) in b.calls() if callee_tag(t.get("callee")) == ("Iterator", "next") and
-               any(nd[0] == "call" and nd[1] == ("RangeInclusive", "new") for nd in walk(operand_tree(ctx, t["args"][0])))]
-        ok = len(rng) == 1
+        # the loop assigning the tags: innermost loop header around the insert
+        hbi = loop_header(b, ibi)
+        ok = hbi is not None
         if ok:
-            (hbi, ht) = rng[0]
-            tagval = ("call", ("Iterator", "next"), None)
             key = operand_tree(ctx, it["args"][1])
             val = operand_tree(ctx, it["args"][2])
             pushed = operand_tree(ctx, stt["args"][1])
-            # (b) tag = the loop variable
-            okb = val[0] == "call" and val[1] == ("Iterator", "next") and val[4] == hbi
+            # (b) tag = the loop variable: `for tag in a..=b` (next() of a range, called inside the
+            #     loop) or a counter local (phi of a constant and itself + 1)
+            kind = loop_var_kind(b, hbi, val)
+            okb = kind == "loopvar"
+            if kind == "unknown":
+                R.undecided_site("R-TAGS", b.label(), "the tag stored in the writer table is not recognisably "
+                                 "the loop variable nor derived from it: %s" % show(val)[:120])
+                okb = True
             # (c) same bytes in both tables
             kroot = key[4] if key[0] == "call" else None
             okc = kroot is not None and any(nd[0] == "call" and nd[1] == ("Iterator", "next") and nd[4] == kroot
@@ -361,27 +419,17 @@ def r_tags(F, R):
             if fa_s is None and fa_i is None and all(x is None for x in fa_n):
                 R.undecided_site("R-TAGS", b.label(), "the seen-bitmap test guarding the tag assignment was not recognised")
                 oka = True
-            # (d) alignment: from the loop body entry, every way back to the loop head passes a table
-            #     push, unless the heavy-hitter iterator reported exhaustion
-            body_entry = None
-            tgt = ht["target"]
-            sw = b.term(tgt)
-            if sw["k"] == "switch":
-                for (v, blk) in sw["arms"]:
-                    if v == "1":
-                        body_entry = blk
+            # (d) alignment: every way round the loop passes a table push, unless the heavy-hitter
+            #     iterator (the one the stored bytes come from) reported exhaustion
             exhausted = set()
             for bi in b.live_blocks():
                 for f in facts_at(ctx, bi):
-                    if body_entry is None:
-                        continue
                     if f[0] == "variant" and f[1][0] == "call" and f[1][1] == ("Iterator", "next") and \
-                            f[1][4] != hbi and b.dominates(body_entry, f[1][4]) and \
-                            (f[2] == "0" or (isinstance(f[2], tuple) and "1" in f[2][1])) \
-                            and b.dominates(body_entry, bi):
+                            f[1][4] == kroot and \
+                            (f[2] == "0" or (isinstance(f[2], tuple) and "1" in f[2][1])):
                         exhausted.add(bi)
             avoid = {bi for (bi, _) in pushes} | exhausted
-            okd = body_entry is not None and hbi not in b.reachable(body_entry, avoid)
+            okd = not any(hbi in b.reachable(s_, avoid) for s_ in b.succs(hbi))
             # at most one push per iteration: no push block reaches another without passing the head
             oke = True
             for (p1, _) in pushes:
@@ -432,3 +480,54 @@ def r_stats(F, R, cat=None):
     ok2 = bool(bm) and not b.can_return_avoiding(bm | empties)
     R.check("R-STATS", b.label(), ok2, construct="every non-empty accepted input records its first byte",
             where=b.where(), detail="bitmap stores at blocks %s; empty-input blocks %s" % (sorted(bm), sorted(empties)))
+
+
+# ---------------------------------------------------------------------------------------------
+# R-DEDUP: merging duplicates with Vec::dedup_by accumulates into the element that is kept
+
+
+def r_dedup(F, R):
+    """`Vec::dedup_by(|a, b| ..)` hands the closure the *later* element first and removes it when
+    the closure returns true; `b` is the retained one.  A closure that merges duplicates (writes
+    into one element and returns true) must therefore write into its second parameter.  Fires only
+    on positive evidence: the closure writes through its first parameter and never through the
+    second."""
+    n = 0
+    for b in F.bodies.values():
+        if b.in_tests() or b.kind == "Closure":
+            continue
+        for (bi, t) in b.calls():
+            if callee_tag(t.get("callee"))[1] != "dedup_by" or len(t["args"]) < 2:
+                continue
+            ctx = Ctx(b)
+            clo = operand_tree(ctx, t["args"][1])
+            if not (clo[0] == "agg" and str(clo[1]).startswith("closure:")):
+                R.undecided_site("R-DEDUP", b.label(), "dedup_by with a non-closure predicate")
+                continue
+            cb = F.body(clo[1][len("closure:"):])
+            if cb is None:
+                continue
+            n += 1
+            R.saw(cb)
+            cctx = Ctx(cb)
+            wrote = {2: False, 3: False}
+            for xb in cb.live_blocks():
+                for st in cb.blocks[xb]["stmts"]:
+                    if st["k"] == "assign" and st["place"]["p"]:
+                        for (r, p) in cctx.org.place(st["place"]):
+                            if r in (("arg", 2), ("arg", 3)):
+                                wrote[r[1]] = True
+                tt = cb.term(xb)
+                if tt["k"] == "call":
+                    for a in tt["args"]:
+                        if a["k"] in ("move", "copy") and cb.locals[a["place"]["l"]]["ty"].get("mut"):
+                            for (r, p) in cctx.org.operand(a):
+                                if r in (("arg", 2), ("arg", 3)) and p:
+                                    wrote[r[1]] = True
+            ok = not (wrote[2] and not wrote[3])
+            R.check("R-DEDUP", b.label(), ok, construct="dedup_by merges into the retained (second) element",
+                    where="%s:%s" % (b.file, t["line"]),
+                    detail="writes through first parameter: %s, through second: %s" % (wrote[2], wrote[3]) +
+                    ("" if ok else "; the first parameter is the element dedup_by removes, so what is "
+                     "accumulated into it is dropped"))
+    R.info("R-DEDUP: %d dedup_by closures analysed" % n)
